@@ -18,6 +18,7 @@ import (
 func init() {
 	vr.Register("Harness_C05_static", Harness_C05_static)
 	vr.Register("Harness_C05_static_faults", Harness_C05_static_faults)
+	vr.Register("Harness_C05_static_ragged", Harness_C05_static_ragged)
 	vr.Register("Harness_C05_realtime", Harness_C05_realtime)
 	vr.Register("Harness_C05_journal", Harness_C05_journal)
 }
@@ -153,6 +154,59 @@ func Harness_C05_static_faults() {
 	}
 	s2, err2 := gtfs.ParseStatic(vr.BadBytes(), gtfs.ParseStaticOptions{})
 	vr.Assert("C05.static.not_a_zip", s2 == nil && err2 != nil)
+}
+
+// Rows whose cell count differs from the header's (cells missing at the end, or
+// one cell too many), in every file, with the optional default-bearing columns
+// placed last so that a short row ends before them: ParseStatic returns a
+// result or an error, it never indexes past the end of a row.
+func Harness_C05_static_ragged() {
+	files := map[string]vr.File{}
+	for _, f := range hConcreteFeed() {
+		files[f.Name] = f
+	}
+	wide := []vr.File{
+		{Name: "routes.txt", Header: []string{"route_id", "agency_id", "route_type", "route_short_name", "route_color", "route_text_color", "continuous_pickup", "continuous_drop_off"},
+			Rows: [][]string{{"r1", "ag", "1", "A", "00FF00", "000000", "0", "1"}}},
+		{Name: "stops.txt", Header: []string{"stop_id", "stop_name", "parent_station", "location_type", "wheelchair_boarding"},
+			Rows: [][]string{{"s3", "c", "", "1", "1"}, {"s1", "a", "s3", "0", "0"}, {"s2", "b", "s3", "0", "2"}}},
+		{Name: "trips.txt", Header: []string{"route_id", "service_id", "trip_id", "direction_id", "wheelchair_accessible", "bikes_allowed"},
+			Rows: [][]string{{"r1", "sv1", "t1", "0", "1", "2"}}},
+		{Name: "stop_times.txt", Header: []string{"trip_id", "arrival_time", "departure_time", "stop_id", "stop_sequence", "pickup_type", "drop_off_type", "continuous_pickup", "continuous_drop_off", "timepoint"},
+			Rows: [][]string{{"t1", "08:00:00", "08:00:30", "s1", "1", "0", "0", "1", "1", "1"}}},
+		{Name: "transfers.txt", Header: []string{"from_stop_id", "to_stop_id", "min_transfer_time", "transfer_type"}, Rows: [][]string{{"s1", "s2", "30", "2"}}},
+		{Name: "frequencies.txt", Header: []string{"trip_id", "start_time", "end_time", "headway_secs", "exact_times"}, Rows: [][]string{{"t1", "06:00:00", "07:00:00", "600", "1"}}},
+		{Name: "calendar_dates.txt", Header: []string{"service_id", "date", "exception_type"}, Rows: [][]string{{"sv1", "20240704", "2"}}},
+		{Name: "agency.txt", Header: []string{"agency_id", "agency_name", "agency_url", "agency_timezone", "agency_lang"}, Rows: [][]string{{"ag", "A", "u", "UTC", "en"}}},
+	}
+	for _, f := range wide {
+		files[f.Name] = f
+	}
+	victim := wide[hConcretize(vr.Int("victim", 0, len(wide)-1), 0, len(wide)-1)]
+	full := victim.Rows[len(victim.Rows)-1]
+	n := hConcretize(vr.Int("cells", 1, len(full)+1), 1, len(full)+1) // at least one cell: the reader skips empty lines
+	var ragged []string
+	if n <= len(full) {
+		ragged = append(ragged, full[:n]...)
+	} else {
+		ragged = append(append(ragged, full...), "x")
+	}
+	rows := append([][]string{}, victim.Rows...)
+	if vr.Bool("ragged_first") {
+		rows = append([][]string{ragged}, rows...)
+	} else {
+		rows = append(rows, ragged)
+	}
+	files[victim.Name] = vr.File{Name: victim.Name, Header: victim.Header, Rows: rows}
+	var fs []vr.File
+	for _, f := range files {
+		fs = append(fs, f)
+	}
+	s, err := gtfs.ParseStatic(vr.Archive(hSortFiles(fs)), gtfs.ParseStaticOptions{InheritWheelchairBoarding: vr.Bool("inherit")})
+	vr.Assert("C05.static.returns", (s != nil) != (err != nil))
+	if s != nil {
+		hWalkStatic(s)
+	}
 }
 
 func hExtension() extensions.Extension {
